@@ -15,7 +15,8 @@ class C08(Prop):
     imports = ["Run.RunCov"]
     coq_batch = 25
     rule = ("2-D arrays of 1..8 variables x 2..64 observations (quick: up to 24), f64 and f32, ddof in {0, 1, fractional < n}, "
-            "data styles incl. large common offset and not exactly representable values, C/F/transposed/stepped inputs. cov: "
+            "data styles incl. large common offset, not exactly representable values and (every fourth case) an extreme common "
+            "scale 2^+-40..55 (f32) / 2^+-300..450 (f64) of all or all but one variable, C/F/transposed/stepped inputs. cov: "
             "every entry of the implementation's matrix is compared with the reference model evaluated EXACTLY over Q on the "
             "dyadic input values (inside Coq) within the assumed bound 64 (n+1) u sum_k|x_ik-m_i||x_jk-m_j| / |n-ddof|; an "
             "independent Fraction oracle re-checks it together with symmetry, diagonal >= 0, and for pearson: diagonal 1, "
@@ -37,6 +38,20 @@ class C08(Prop):
             for r in rows:
                 if len(set(r)) == 1:
                     r[0] = FP(et).r(r[0] + 1.0)
+            if rep % 4 == 3:
+                # extreme common scale (an exact power of two): every quantity the documented computation
+                # forms (x, cov ~ scale^2, sigma_i sigma_j ~ scale^2) stays representable, anything of
+                # magnitude scale^4 or a lost factor does not
+                rows = [float_pool(rng.choice([0, 5]), n, rng, et) for _ in range(k)]
+                for r in rows:
+                    if len(set(r)) == 1:
+                        r[0] = FP(et).r(r[0] + 1.0)
+                top = max(abs(v) for r in rows for v in r) or 1.0
+                E = rng.choice([40, -40, 55, -35] if et == "f32" else [300, -300, 450, -420])
+                sh = E - math.frexp(top)[1]
+                rows = [[math.ldexp(v, sh) for v in r] for r in rows]
+                if k >= 2 and rng.chance(1, 3):
+                    rows[0] = [math.ldexp(v, -sh) for v in rows[0]]   # only the other variables are rescaled
             flat = [v for r in rows for v in r]
             lay = rng.choice(zoo([k, n], rng, 3))
             ddof = rng.choice([0.0, 1.0, 0.5, float(n) - 1.5])
@@ -49,6 +64,8 @@ class C08(Prop):
             yield mk_num_case("pearson_correlation", et, [([k, n], flat, lay)], "", k=k, n=n, grp=grp, role="base")
             if k >= 2:
                 a, b = rng.range(1, 9) / 2.0, rng.range(-8, 8) / 4.0
+                if rep % 4 == 3:
+                    b = 0.0   # a shift would swamp (or be swamped by) the extreme scale
                 fp = FP(et)
                 resc = [[fp.r(fp.r(a * v) + b) for v in rows[0]]] + rows[1:]
                 neg = [[-v for v in rows[0]]] + rows[1:]
